@@ -161,7 +161,18 @@ def write_replay(prop, key, rec, contract, src, n):
 
     def texts(lst):
         return [c[1] if isinstance(c, tuple) else c for c in lst]
+    kind_full = rec['key'].split(':', 1)[1] if ':' in rec['key'] else rec['key']
+    m_k = re.match(r'^(post|exc-post|yield-req|raises-only-if|noraise-outside|inv-keep|inv-init|pre@call|call-req|variant)(?:\[([^\]]*)\])?(?:#(.*))?$', kind_full)
+    focus = None
+    if m_k:
+        focus = {'kind': m_k.group(1), 'name': (m_k.group(3) if m_k.group(1) in ('post', 'exc-post', 'yield-req') else m_k.group(2))}
+        if focus['name']:
+            focus['name'] = re.sub(r'@C\d+(,C\d+)*$', lambda mm: mm.group(0), focus['name'])
+        if focus['kind'] not in ('post', 'yield-req', 'raises-only-if', 'noraise-outside'):
+            focus = {'kind': None, 'name': None}     # auxiliary obligation: replay against all property-level clauses
+    named = lambda lst: [[c[0], c[1]] if isinstance(c, tuple) else [str(i), c] for i, c in enumerate(lst)]
     doc = {
+        'focus': focus,
         'property': prop, 'obligation': rec['key'], 'function': key, 'target': target, 'case': rec.get('case'), 'path': rec.get('path'),
         'module': (src.funcs.get(target.rpartition('.')[2], (None, None))[1] if not cname else src.classes[cname].module if cname in src.classes else None),
         'kind': contract.get('kind', 'plain'), 'src_root': src.root, 'classes': classes, 'self_name': self_name,
@@ -169,6 +180,8 @@ def write_replay(prop, key, rec, contract, src, n):
         'line': rec.get('line'), 'info': rec.get('info'),
         'contract': {'requires': texts(contract.get('requires', [])), 'self_inv': texts(contract.get('self_inv', [])),
                      'raises': contract.get('raises', {}), 'ensures': texts(contract.get('ensures', [])),
+                     'ensures_named': named(contract.get('ensures', [])), 'yield_requires_named': named(contract.get('yield_requires', [])),
+                     'may_raise': contract.get('may_raise', []),
                      'ghost': contract.get('ghost', {}), 'on_yield': contract.get('on_yield', {}),
                      'yield_requires': texts(contract.get('yield_requires', [])), 'is_generator': bool(contract.get('on_yield') or contract.get('yield_requires'))},
         'spec_module': SPEC_PATH, 'smt2': rec.get('smt2'),
